@@ -3,6 +3,7 @@ package annotations
 import (
 	"go/ast"
 	"go/token"
+	"go/types"
 	"regexp"
 	"strings"
 
@@ -510,6 +511,21 @@ func ExtractReceiverType(expr ast.Expr) string {
 	return ""
 }
 
+// importedPackage returns the package an import spec refers to (not the importing package),
+// so that ImportMap can resolve qualifiers by the imported package's declared name.
+func importedPackage(pass *analysis.Pass, spec *ast.ImportSpec) *types.Package {
+	if pass.Pkg == nil || spec == nil || spec.Path == nil {
+		return nil
+	}
+	path := strings.Trim(spec.Path.Value, "\"`")
+	for _, imp := range pass.Pkg.Imports() {
+		if imp.Path() == path {
+			return imp
+		}
+	}
+	return nil
+}
+
 var matcher = ahocorasick.NewStringMatcher([]string{
 	"@implements",
 	"@constructor",
@@ -539,7 +555,7 @@ func ReadAllAnnotations(
 		// Build import map for this file
 		imports := &util.ImportMap{}
 		for _, imp := range file.Imports {
-			imports.Add(imp, pass.Pkg)
+			imports.Add(imp, importedPackage(pass, imp))
 		}
 
 		for _, n := range file.Decls {
